@@ -616,7 +616,10 @@ def check_addnew(rep, prog):
     fa = prog.method('pgpy.packet.fields', 'SubPackets', 'addnew')
     for hashed in (True, False):
         sc = Scenario(args=at(fa, p1=Sym('spname', types={'str'}), p2=Const(hashed)), inline=noinline)
-        for s in Interp(prog, sc).run(fa):
+        paths = [s for s in Interp(prog, sc).run(fa) if s.raised is None]      # a path that refuses (unknown subpacket name) files nothing
+        if not paths:
+            raise AnalysisError('SubPackets.addnew has no returning path for hashed=%s' % hashed)
+        for s in paths:
             st = [p.replace("('' + spname)", 'spname') for p, v, l, _ in s.stores if '[' in p]
             want = "self[('h_' + spname)]" if hashed else 'self[spname]'
             rep.check(st == [want], 'C02.3', 'SubPackets.addnew', 'hashed=%s -> %s' % (hashed, st),
